@@ -201,7 +201,7 @@ func c04Node(rng *rand.Rand, depth int) *C04Node {
 func init() {
 	core.Register(&core.Prop{
 		ID: "C04",
-		Rule: "(a) random acyclic object graphs of a recursive family of named types (depth 0-4 quick, 0-5 thorough; embedded structs marked and unmarked; every container form: *T, **T, []T, []*T, [2]T, [2]*T, map[string]T, map[int]*T, maps keyed by uint64, float64 (NaN) and types with a String method; each node independently nil / zero / populated; nil elements; decoy sub-objects on unmarked, unexported and time.Time fields that would fail if visited) through T, *T, **T, []T, []*T, [n]T, map[string]T and map[int]*T top-level inputs; " +
+		Rule: "(a0) chains of 8..130 objects through a pointer, a slice and a map with dotted keys, valid except the last object; top-level collections of non-structs; (a) random acyclic object graphs of a recursive family of named types (depth 0-4 quick, 0-5 thorough; embedded structs marked and unmarked; every container form: *T, **T, []T, []*T, [2]T, [2]*T, map[string]T, map[int]*T, maps keyed by uint64, float64 (NaN) and types with a String method; each node independently nil / zero / populated; nil elements; decoy sub-objects on unmarked, unexported and time.Time fields that would fail if visited) through T, *T, **T, []T, []*T, [n]T, map[string]T and map[int]*T top-level inputs; " +
 			"(b) struct types synthesised with reflect.StructOf, nesting depth <= 4, struct-valued fields independently tagged required / exist / both / neither. The (path, rule-instance) pairs of the returned error must equal the reference validator's recursive descent. distinct = distinct (type, value) rendering; non-trivial = at least one clause expected below the top level or a decoy present",
 		Shards: func(t core.Tier) int { return 16 },
 		Run:    runC04,
@@ -271,6 +271,9 @@ func runC04(c *core.Ctx) {
 	if c.Shard == 0 {
 		c04NonStructCollections(res)
 	}
+	if c.Shard == 1%c.Of {
+		c04DeepChains(res)
+	}
 
 	// (b) synthesised types, deeper than C02's
 	seq := 0
@@ -286,6 +289,50 @@ func runC04(c *core.Ctx) {
 		v := tunedFill(rng, t, "valid", 0.2)
 		res.Count("structof_cases")
 		c04Case(res, "structof", ptrTo(v).Interface(), i)
+	}
+}
+
+// C04Chain: depth is not bounded. A list of 31..70 nodes through a pointer field, through a slice
+// field, and through a map field whose keys contain dots (the rendered path is text, not a depth
+// counter); every node is valid except the last one.
+type C04Chain struct {
+	V    int                  `valid:"ge=1|m_v"`
+	Next *C04Chain            `valid:"exist"`
+	L    []C04Chain           `valid:"exist"`
+	M    map[string]*C04Chain `valid:"required|m_m"`
+}
+
+func c04Chain(n int, how int) *C04Chain {
+	head := &C04Chain{V: 1, M: map[string]*C04Chain{"ok": nil}}
+	cur := head
+	for i := 1; i < n; i++ {
+		nx := &C04Chain{V: 1, M: map[string]*C04Chain{"ok": nil}}
+		if i == n-1 {
+			nx.V = -5 // the one violation, at the far end
+		}
+		switch how {
+		case 0:
+			cur.Next = nx
+		case 1:
+			cur.L = []C04Chain{*nx}
+			nx = &cur.L[0]
+		default:
+			cur.M = map[string]*C04Chain{"10.0.0." + strconv.Itoa(i%250): nx}
+		}
+		cur = nx
+	}
+	return head
+}
+
+func c04DeepChains(res *core.Result) {
+	i := 0
+	for _, n := range []int{8, 16, 31, 32, 33, 34, 40, 64, 65, 70, 130} {
+		for how := 0; how < 3; how++ {
+			res.Count("deep_chain_cases")
+			c04Case(res, fmt.Sprintf("chain|%d", how), c04Chain(n, how), 1000+i)
+			c04Case(res, fmt.Sprintf("chain-slice|%d", how), []*C04Chain{c04Chain(n, how), nil, c04Chain(n/2+1, how)}, 2000+i)
+			i++
+		}
 	}
 }
 
